@@ -5,10 +5,12 @@
    (specs/csrbank/CsrBankCases.tla), the real AutoCSR / CSRBankArray code builds them, TLC judges the
    address map or the refusal (clause AddressesDisjoint);
  * T-mode: long random histories on register sets at the real bus widths 8 / 16 / 32 (every clause);
- * csr_bus.SRAM windows: see csrsram part below (flat-memory contract, G-mode)."""
+ * csr_bus.SRAM windows (paging, sub-word staging, read-only) against a flat-memory contract
+   (specs/csrbank/CsrSram*.tla), G-mode."""
 import json
 import os
 import random
+import time
 
 from .. import tlc as tlcmod
 from .. import tracecheck
@@ -44,13 +46,37 @@ FAMILY = GFamily("csrbank/CsrBankGraph", TRACE, FACTORY, clause_map={k: k for k 
 # ------------------------------------------------------------------------------------------- G-mode
 def g_mode(report, tier):
     cfgs = fam.configs(tier)
+    if tier == "thorough":
+        cfgs = cfgs + fam.sweep_configs()
     for spec, cfg in cfgs:
         if not cfg["built"]:
             raise MachineryError("G-mode configuration cannot be built: %s (%s)" % (describe(spec), cfg["error"]))
-    per = 6 if tier == "quick" else 4
-    stats = run_batches(FAMILY, report, [cfgs[i:i + per] for i in range(0, len(cfgs), per)], INVS, [],
-                        spec_budget=400000, total_budget=2000000)
+        # vacuity guard: every bank answers inside the master's address space and every register has an address
+        owners = {e[0] for m in cfg["map"] for e in m[:1 << cfg["pb"]]}
+        if any(a >= cfg["npages"] for a in cfg["bankadr"]) or owners - {0} != set(range(1, len(cfg["regs"]) + 1)):
+            raise MachineryError("G-mode configuration with unreachable registers: %s" % describe(spec))
+    # DUTs that hit the listed finding (atomic write under little ordering) run alone: a confirmed violation
+    # restarts the exploration of the rest of its batch
+    alone = [c for c in cfgs if c[0]["ordering"] == "little" and c[0]["atomic_multiword"]]
+    rest = [c for c in cfgs if not (c[0]["ordering"] == "little" and c[0]["atomic_multiword"])]
+    per = 6
+    batches = [rest[i:i + per] for i in range(0, len(rest), per)] + [[c] for c in alone]
+    stats = run_batches(FAMILY, report, batches, INVS, [], spec_budget=400000, total_budget=2000000)
     report.add(duts_explored=len(stats), per_dut=stats)
+
+
+SRAM_INVS = ["WindowReadsLastWrite", "WindowZeroWhenUnselected", "WindowPageRegister"]
+SRAM_FAMILY = GFamily("csrbank/CsrSramGraph", "csrbank/CsrSramTrace", "harness.families.csrbank:make_sram",
+                      clause_map={k: k for k in SRAM_INVS}, spec_name=None,
+                      describe=lambda s: "csr_bus.SRAM(w=%d, mem %dx%d, paging=%d%s)" % (
+                          s["w"], s["depth"], s["mw"], s["paging"], ", read_only" if s.get("ro") else ""))
+
+
+def sram_windows(report, tier):
+    cfgs = fam.sram_configs(tier)
+    stats = run_batches(SRAM_FAMILY, report, [cfgs[i:i + 6] for i in range(0, len(cfgs), 6)], SRAM_INVS, [],
+                        spec_budget=400000, total_budget=2000000)
+    report.add(sram_windows_explored=len(stats), per_dut=stats)
 
 
 # ------------------------------------------------------------------------------------------- construction
@@ -103,7 +129,7 @@ def construction_cases(report, tier, seed):
 # ------------------------------------------------------------------------------------------- T-mode
 def long_runs(report, tier, seed):
     rnd = random.Random(seed * 7919 + 12)
-    nconf, ncyc = (18, 160) if tier == "quick" else (150, 500)
+    nconf, ncyc = (30, 250) if tier == "quick" else (160, 500)
     traces, meta = [], []
     for i in range(nconf):
         w = (8, 32, 16)[i % 3] if i % 6 else 8
@@ -143,10 +169,14 @@ def run(prop, report, tier, seed):
                   "of 2 and 4 bits with registers of 1 .. 2w+1 bits, device-side activity of a register combined "
                   "with idle cycles, accesses to that register and reads of every address; T-mode at 8/16/32-bit "
                   "words with registers of at most 30 bits (TLC integers) and free combinations; bank pages distinct")
-    construction_cases(report, tier, seed)
-    g_mode(report, tier)
-    long_runs(report, tier, seed)
-    report.add(clauses=INVS)
+    for name, fn in (("construction", lambda: construction_cases(report, tier, seed)),
+                     ("g_mode", lambda: g_mode(report, tier)),
+                     ("sram_windows", lambda: sram_windows(report, tier)),
+                     ("long_runs", lambda: long_runs(report, tier, seed))):
+        t0 = time.time()
+        fn()
+        report.add(phase_wall_s={name: round(time.time() - t0, 1)})
+    report.add(clauses=INVS + SRAM_INVS)
     report.cov["exhaustive"] = True
 
 
